@@ -34,9 +34,17 @@ Fixpoint roots_of (s : xstate) (sp : Z) (kinds : string) (pos : N) : option (lis
       end
   end.
 
-Record hstats := { boundaries : N; peak_in_use : Z; last_frontier : Z; first_violation : option string }.
-Definition hstats0 : hstats := {| boundaries := 0; peak_in_use := 0; last_frontier := HEAP_BASE; first_violation := None |}.
+(* pending: kind strings still to be consumed by "#s" markers (from Sem/AxTrace.trace_linear);
+   underrun: a "#s" marker was reached with nothing pending (the runs are not in lockstep) *)
+Record hstats := { boundaries : N; peak_in_use : Z; last_frontier : Z; first_violation : option string;
+                   pending : list string; underrun : bool }.
+Definition hstats_with (tr : list string) : hstats :=
+  {| boundaries := 0; peak_in_use := 0; last_frontier := HEAP_BASE; first_violation := None; pending := tr; underrun := false |}.
+Definition hstats0 : hstats := hstats_with [].
 
+Definition upd_stats (st : hstats) (peak fr : Z) (viol : option string) : hstats :=
+  {| boundaries := boundaries st + 1; peak_in_use := peak; last_frontier := fr; first_violation := viol;
+     pending := pending st; underrun := underrun st |}.
 Definition at_mark (s : xstate) (kinds : string) (st : hstats) : hstats :=
   match first_violation st with
   | Some _ => st
@@ -44,21 +52,26 @@ Definition at_mark (s : xstate) (kinds : string) (st : hstats) : hstats :=
       match rget s 0%N, view_of s with
       | Some sp, Some v =>
           match roots_of s sp kinds 0 with
-          | None => {| boundaries := boundaries st + 1; peak_in_use := peak_in_use st; last_frontier := last_frontier st;
-                       first_violation := Some "a live object variable holds an undefined pointer" |}
+          | None => upd_stats st (peak_in_use st) (last_frontier st) (Some "a live object variable holds an undefined pointer")
           | Some roots =>
               match inv_check v roots with
-              | inr why => {| boundaries := boundaries st + 1; peak_in_use := peak_in_use st; last_frontier := last_frontier st;
-                              first_violation := Some why |}
+              | inr why => upd_stats st (peak_in_use st) (last_frontier st) (Some why)
               | inl rep =>
-                  {| boundaries := boundaries st + 1;
-                     peak_in_use := Z.max (peak_in_use st) (Z.of_nat (List.length (hr_counted rep) + List.length (hr_fl rep)));
-                     last_frontier := hr_frontier rep; first_violation := None |}
+                  upd_stats st (Z.max (peak_in_use st) (Z.of_nat (List.length (hr_counted rep) + List.length (hr_fl rep))))
+                            (hr_frontier rep) None
               end
           end
-      | _, _ => {| boundaries := boundaries st + 1; peak_in_use := peak_in_use st; last_frontier := last_frontier st;
-                   first_violation := Some "heap or free register undefined at a statement boundary" |}
+      | _, _ => upd_stats st (peak_in_use st) (last_frontier st) (Some "heap or free register undefined at a statement boundary")
       end
+  end.
+Definition at_smark (s : xstate) (st : hstats) : hstats :=
+  match pending st with
+  | [] => {| boundaries := boundaries st; peak_in_use := peak_in_use st; last_frontier := last_frontier st;
+             first_violation := first_violation st; pending := []; underrun := true |}
+  | k :: rest =>
+      let st1 := at_mark s k st in
+      {| boundaries := boundaries st1; peak_in_use := peak_in_use st1; last_frontier := last_frontier st1;
+         first_violation := first_violation st1; pending := rest; underrun := underrun st1 |}
   end.
 
 Inductive hchunk := HFinished (o : obs) (s : xstate) (st : hstats) | HMore (pc : positive) (s : xstate) (st : hstats).
@@ -71,6 +84,7 @@ Fixpoint hrun_chunk (fuel : nat) (im : image) (pc : positive) (s : xstate) (st :
       | Some c =>
           let st' := match c with
                      | LAB (String "#"%char (String "m"%char kinds)) => at_mark s kinds st
+                     | LAB (String "#"%char (String "s"%char _)) => at_smark s st
                      | _ => st
                      end in
           match step im c s with
@@ -91,9 +105,11 @@ Fixpoint hrun (outer inner : nat) (im : image) (pc : positive) (s : xstate) (st 
       | HMore pc' s' st' => hrun o inner im pc' s' st'
       end
   end.
-Definition run_x86_heap (outer inner : nat) (cs : list xcode) (args : list Z) : obs * xstate * hstats :=
+Definition run_x86_heap_tr (outer inner : nat) (cs : list xcode) (args : list Z) (tr : list string) : obs * xstate * hstats :=
   let im := mk_image cs in
   match find_label (labels im) "asm_main" with
   | None => ((([] : prints), OStuck "no-asm_main"), init_state args, hstats0)
-  | Some i => hrun outer inner im i (init_state args) hstats0
+  | Some i => hrun outer inner im i (init_state args) (hstats_with tr)
   end.
+Definition run_x86_heap (outer inner : nat) (cs : list xcode) (args : list Z) : obs * xstate * hstats :=
+  run_x86_heap_tr outer inner cs args [].
